@@ -8,6 +8,12 @@ Status.v/History.v through History.step).  Graphs: single and group producers re
 consumers with getargs on a key / on the whole dict (sources made setup-tasks implicitly, or listed
 in `setup` explicitly), chains, calc_dep tasks returning file_dep / task_dep, python- and cmd-actions.
 
+Two families of sessions: 'random' (the mix above) and 'revalue' (gen_session mode): a producer is successfully
+RE-executed with other values than its previous execution saved -- often with NO values (its action returns
+None / {} / True, field `noval`) after an execution that saved some -- by changing its definition and one of its file
+dependencies; the consumers (single key / whole dict; single and group sources) run in the same run and in later
+runs in which the producer is up-to-date and its values come from the DB; json, dbm and sqlite equally often.
+
 Seams: instrumented python-actions append the kwargs they are called with to a log file (works
 across worker processes); cmd-actions `echo` their expanded string to it; a recording reporter
 (failure kinds, final state of every task, the Task objects via `initialize`); one wrapper around
@@ -29,6 +35,10 @@ Independent oracle (no model): a Python shadow of "what the last successful exec
 saw / saved" (values returned by the instrumented action + the savers' keys are NOT needed: only
 user keys are compared), evaluated on the kwargs the executed actions really received:
    getargs values == latest saved values of the source(s)      shape getargs-stale / getargs-group-extra-task-dep
+            ("saved" = the user keys of the dict the source's action was SEEN to return -- logged next to its kwargs --
+            in its most recent successful execution; None / True / {} = no values: a key from it is an error, the whole
+            dict is {}), whether the source ran in this run or is up-to-date / not selected (DB)
+   a task that fails with a getargs error has a source without record / without the key   shape getargs-error-without-cause
    dependencies == current file_dep (calc additions included), targets == current targets
    every task returned as task_dep by a calc_dep with visible values has its final report before the
             dependent's actions start                                   shape calc-task-dep-not-before
@@ -69,23 +79,49 @@ def pname(code):
 
 
 # ------------------------------------------------------------------ generation
-def gen_session(rng, idx):
+NOVAL = ('none', 'dict', 'true')      # how a python-action says "no values": return None / {} / True
+
+
+def gen_session(rng, idx, mode='random'):
     """tasks: list of specs; ids are positions; a task depends only on lower ids, except a group
-    (its sub-tasks directly follow it)"""
+    (its sub-tasks directly follow it).
+    mode 'revalue': histories aimed at successive successful executions of one producer that save DIFFERENT
+    values -- in particular no values (None / {} / True) after some values -- with the consumers executed in the
+    same run and in later runs in which the producer is up-to-date (its values then come from the DB)."""
     tasks = []
+    rv = mode == 'revalue'
 
     def new(**kw):
         t = dict(kind='plain', file_dep=[], targets=[], uptodate=[], values=[], result=None, getargs=[], setup=[],
-                 task_dep=[], calc_dep=[], group=False, sub_of=None, action='py', params=[], extra_dep=[])
+                 task_dep=[], calc_dep=[], group=False, sub_of=None, action='py', params=[], extra_dep=[],
+                 noval=rng.choice(NOVAL))
         t.update(kw)
         tasks.append(t)
         return len(tasks) - 1
 
-    def rvalues():
+    def rvalues(p_empty=0.12):
+        if rng.random() < p_empty:
+            return []             # the actions return no values: an EMPTY dict is saved
         ks = rng.sample([0, 1], rng.choice([1, 2, 2]))
         return sorted((k, rng.choice([None, 0, 1, 2, 3, 5, 7])) for k in ks)
 
+    def other_values(old):
+        """values for the next execution of a producer: different from `old`; often none at all, or fewer keys"""
+        for _ in range(20):
+            r = rng.random()
+            if r < 0.45:
+                new = []
+            elif r < 0.6 and len(old) > 1:
+                new = [rng.choice(old)]
+            else:
+                new = rvalues(0)
+            if new != old:
+                return new
+        return []
+
     def rdeps(p=0.6):
+        if rv and p < 0.8:
+            p = 0.85              # a producer with a file_dep can be up-to-date in a later run
         return sorted(rng.sample(range(4), rng.choice([1, 1, 2]))) if rng.random() < p else []
 
     def rutd():
@@ -93,6 +129,8 @@ def gen_session(rng, idx):
         return [('bool', True)] if r < 0.2 else [('run_once',)] if r < 0.3 else []
 
     shape = rng.choice(['single', 'single', 'group', 'group', 'chain', 'calc', 'calc', 'two', 'group-extra'])
+    if rv:
+        shape = rng.choice(['single', 'single', 'group', 'group', 'chain', 'two', 'group-extra'])
     producers, groups = [], []
     if shape in ('single', 'chain', 'two', 'calc'):
         producers.append(new(file_dep=rdeps(), uptodate=rutd(), values=rvalues(), result=rng.choice([None, 0, 1, 2])))
@@ -132,6 +170,10 @@ def gen_session(rng, idx):
             if rng.random() < 0.06 and j == 0:
                 code = 2          # a getargs entry named `changed`: shadows the meta-argument
             key = rng.choice([0, 0, 1, None])
+            if rv:
+                # a key the source (the first sub-task of a group) saves at the start, or the whole dict
+                first = tasks[src]['task_dep'][-1] if tasks[src]['group'] else src
+                key = rng.choice([k for k, _ in tasks[first]['values']] * 2 + [None, None, rng.choice([0, 1])])
             if action == 'cmd' and (key is None or tasks[src]['group']):
                 action = 'py'
             gas.append((code, src, key))
@@ -141,9 +183,18 @@ def gen_session(rng, idx):
             if tasks[src]['group'] or rng.random() < 0.3:    # group sources are given as explicit setup-tasks
                 if src not in setup:
                     setup.append(src)
+        srcs_ = [src for _, src, _ in gas]
+        if any(s2 in srcs_ for s1 in srcs_ for _, s2, _ in tasks[s1]['getargs']):
+            # two sources, one consuming the other (chain): Task._init_getargs collects the implicit sources in a SET of
+            # names, the order in which they become setup-tasks is the set's iteration order (hash seed); here that
+            # order would be observable (the middle task is checked before or after the producer ran), so the
+            # sources are listed explicitly, in a fixed order (see the report: finding `getargs-setup-order`)
+            setup += [src for src in srcs_ if src not in setup]
         params = [p for p in [0, 1, 2] if p not in params and rng.random() < 0.9] + params
         rng.shuffle(params)
         utd = rng.choice([[], [], [], [('bool', False)], [('bool', True)]])
+        if rv:
+            utd = rng.choice([[], [('bool', False)], [('bool', False)]])      # the consumer is executed in most runs
         c = new(kind='consumer', file_dep=rdeps(0.8), targets=[4 + ci] if rng.random() < 0.5 else [],
                 uptodate=utd, getargs=gas, setup=setup, params=params, action=action,
                 calc_dep=[calc] if calc is not None and rng.random() < 0.85 else [],
@@ -158,11 +209,57 @@ def gen_session(rng, idx):
             cmds.append(('Write', f, rng.choice([0, 1, 2, 3])))
     for i in range(n):
         cmds.append(('SetDef', i))
-    nruns = rng.choice([2, 3, 3, 4])
+    nruns = rng.choice([3, 4, 4, 5] if rv else [2, 3, 3, 4])
     live = [dict(t) for t in tasks]
+
+    def content_of(f):
+        """content code of file f after the commands generated so far (None: absent)"""
+        c = None
+        for cm in cmds:
+            if cm[0] == 'Write' and cm[1] == f:
+                c = cm[2]
+            elif cm[0] == 'Delete' and cm[1] == f:
+                c = None
+        return c
+
+    def revalue(i):
+        """the dodo file changes so that producer i returns other values (often none), and one of its file
+        dependencies gets another content: its next execution is a successful RE-execution with other values"""
+        t = dict(live[i])
+        t['values'] = other_values(t['values'])
+        t['noval'] = rng.choice(NOVAL)
+        live[i] = t
+        cmds.append(('SetDef', i, t))
+        if t['file_dep']:
+            f = rng.choice(t['file_dep'])
+            cmds.append(('Write', f, rng.choice([c for c in [0, 1, 2, 3] if c != content_of(f)])))
+
+    sources = [i for i, t in enumerate(tasks) if t['kind'] == 'plain' and not t['group']]
+    revalued = False
     for r in range(nruns):
+        if r > 0 and rv:
+            k = rng.random()
+            if k < (0.3 if revalued else 0.75):
+                revalued = True
+                revalue(rng.choice(sources))
+                if rng.random() < 0.3:
+                    revalue(rng.choice(sources))
+            elif k < 0.9:
+                revalued = False
+                # nothing happens to the producers (up-to-date, values from the DB); something makes a consumer run
+                c = rng.choice(consumers)
+                k2 = rng.random()
+                if k2 < 0.3:
+                    cmds.append(('Forget', c))
+                elif k2 < 0.5 and live[c]['targets']:
+                    cmds.append(('Delete', live[c]['targets'][0]))
+                elif k2 < 0.7:
+                    own = [f for f in live[c]['file_dep'] if not any(f in live[j]['file_dep'] for j in sources)]
+                    if own:
+                        f = rng.choice(own)
+                        cmds.append(('Write', f, rng.choice([x for x in [0, 1, 2, 3] if x != content_of(f)])))
         if r > 0:
-            for _ in range(rng.choice([0, 1, 1, 2, 3])):
+            for _ in range(rng.choice([0, 0, 0, 1] if rv else [0, 1, 1, 2, 3])):
                 k = rng.random()
                 if k < 0.30:
                     cmds.append(('Write', rng.randrange(4), rng.choice([0, 1, 2, 3])))
@@ -180,7 +277,8 @@ def gen_session(rng, idx):
                         if t['kind'] == 'calc':
                             t['values'] = [(2, mask(sorted(rng.sample(range(4), rng.choice([1, 2])))))] + [kv for kv in t['values'] if kv[0] == 3]
                         else:
-                            t['values'] = rvalues()
+                            t['values'] = rvalues(0.3)
+                            t['noval'] = rng.choice(NOVAL)
                     elif t['kind'] == 'consumer':
                         if rng.random() < 0.5:
                             t['uptodate'] = rng.choice([[], [('bool', False)], [('bool', True)]])
@@ -205,18 +303,28 @@ def gen_session(rng, idx):
         for i, t in enumerate(live):
             if t['calc_dep']:
                 cmds.append(('SetDef', i, dict(t)))
-        sel = list(consumers) if rng.random() < 0.7 else sorted(rng.sample(range(n), rng.choice([1, 2])))
+        sel = list(consumers) if rng.random() < (0.9 if rv else 0.7) else sorted(rng.sample(range(n), rng.choice([1, 2])))
         if rng.random() < 0.2:
             sel = [rng.choice([i for i, t in enumerate(tasks) if t['kind'] != 'consumer'])] + sel
-        fails = [i for i, t in enumerate(tasks) if not t['group'] and rng.random() < 0.06]
+        fails = [i for i, t in enumerate(tasks) if not t['group'] and rng.random() < (0.03 if rv else 0.06)]
         flavour = rng.choice(['serial', 'serial', 'proc', 'thread'])
         if flavour != 'serial' and len(set(sel)) > 1:
             # under a parallel runner the verdict of a task with a result_dep(setup_dep=True) item depends on whether
             # its source -- not a dependency until the verdict is `run` -- was saved/removed before or after the check:
             # only one root is selected there, so that what each task receives does not depend on the schedule
             sel = [rng.choice(consumers)]
-        cmds.append(('Run', rng.random() < 0.15, fails, sel, flavour))
-    return dict(idx=idx, tasks=tasks, cmds=cmds, backend=rng.choice(['json'] * 6 + ['dbm', 'sqlite']))
+
+        def racy(root):
+            # the same dependence on the schedule inside ONE root: two of its setup-tasks (getargs sources), one of which
+            # has a result_dep on the other (chain: producer and middle task), are dispatched together; the middle
+            # task is checked before or after the producer's new result is saved / its record removed
+            srcs = {s for _, s, _ in tasks[root]['getargs']} | set(tasks[root]['setup'])
+            return any(s2 in srcs for s1 in srcs for _, s2, _ in tasks[s1]['getargs'])
+        if flavour != 'serial' and any(racy(i) for i in sel):
+            flavour = 'serial'
+        cmds.append(('Run', rng.random() < (0.08 if rv else 0.15), fails, sel, flavour))
+    return dict(idx=idx, mode=mode, tasks=tasks, cmds=cmds,
+                backend=rng.choice(['json', 'dbm', 'sqlite'] if rv else ['json'] * 6 + ['dbm', 'sqlite']))
 
 
 # ------------------------------------------------------------------ Coq rendering
@@ -380,9 +488,11 @@ class World:
         # a failing task fails in its FIRST value-producing action: task.values stays {} (a later failing
         # action would leave the values of the earlier ones on the Task object, see the report)
         if t['action'] == 'py':
-            src = 'def rec(%s):\n    _log(dict(task=_name, kw=dict(%s), ret=_ret))\n    return False if _failing else (dict(_ret) if _ret else None)\n' % (
+            src = ('def rec(%s):\n    _r = False if _failing else (dict(_ret) if _ret else _noval)\n'
+                   '    _log(dict(task=_name, kw=dict(%s), ret=_r))\n    return _r\n') % (
                 ', '.join(params), ', '.join('%s=%s' % (p, p) for p in params))
-            ns = {'_log': append, '_name': name, '_ret': ret, '_failing': failing}
+            ns = {'_log': append, '_name': name, '_ret': ret, '_failing': failing,
+                  '_noval': {'none': None, 'dict': {}, 'true': True}[t.get('noval', 'none')]}
             exec(src, ns)
             acts.append(ns['rec'])
         else:
@@ -584,7 +694,7 @@ def run_session(ctx, sess, out):
                         logged.append(dict(task=parts[1], cmd=parts[2:], kw=w.cmd_kw(w.ids[parts[1]], parts[2:])))
                     elif line:
                         logged.append(json.loads(line))
-            obs = dict(rc=rc, events=list(Rec.events), verdicts=list(Rec.verdicts), logged=logged, tasks=Rec.tasks,
+            obs = dict(run_no=len(runs), rc=rc, events=list(Rec.events), verdicts=list(Rec.verdicts), logged=logged, tasks=Rec.tasks,
                        fsview=dict(w.fsview), live={i: dict(t) for i, t in w.live.items()}, ck=w.ck, cmd=c, txt=txt[-400:])
             runs.append(obs)
             for i in range(n):
@@ -629,6 +739,7 @@ class Shadow:
     """per task: what its last successful execution saved (user values) and saw (file deps)"""
     def __init__(self):
         self.last = {}
+        self.hist = {}      # per task: the user values of each of its successful executions, oldest first
 
     def judge(self, sess, w, runs, out):
         tasks = sess['tasks']
@@ -638,14 +749,40 @@ class Shadow:
             succeeded = {tn for e, tn, _ in obs['events'] if e == 'success'}
             failed = {tn for e, tn, _ in obs['events'] if e == 'failure'}
             returned = {l['task']: l.get('ret') for l in obs['logged'] if 'ret' in l}
+
+            def saved_now(j):
+                """user values of task j's successful execution in this run: what its instrumented action was SEEN to
+                return (a dict; None / True / {} = no values), else -- cmd-action + value lambda -- what the spec says"""
+                if names[j] in returned:
+                    r = returned[names[j]]
+                    return {kk: x for kk, x in r.items() if kk in ('u0', 'u1')} if isinstance(r, dict) else {}
+                return {('u%d' % k): x for k, x in live[j]['values'] if k < 2}
+
             # values visible to a consumer in this run: the source's new values if it succeeded in this run, else the DB's
             def latest(j):
                 if names[j] in succeeded:
-                    t = live[j]
-                    return {('u%d' % k): x for k, x in t['values'] if k < 2}, True
+                    return saved_now(j), True
                 if j in self.last:
                     return self.last[j]['values'], True
                 return None, False
+
+            def history_kind(j):
+                """how the values a consumer must see from j relate to what j saved in its earlier successful executions
+                since its record was last removed (forget / failure) -- input distribution only"""
+                vals, has = latest(j)
+                if not has:
+                    return 'no-record'
+                h = self.hist.get(j, [])
+                now = names[j] in succeeded
+                older = h if now else h[:-1]
+                when = 'executed-this-run' if now else 'from-db'
+                if not older:
+                    return when + ':first-values'
+                if vals == older[-1]:
+                    return when + ':same-as-previous-execution'
+                if not vals:
+                    return when + ':NO-VALUES-after-values'
+                return when + ':other-values-than-previous-execution'
             for l in obs['logged']:
                 i = w.ids[l['task']]
                 t = live[i]
@@ -670,6 +807,7 @@ class Shadow:
                         pairs = [(s, got)]
                     for j, g in pairs:
                         vals, has = latest(j)
+                        out.count('source-history:%s:%s' % ('dict' if k is None else 'key', history_kind(j)))
                         if not has:
                             out.violations.append(dict(what='task executed with getargs value %r from %s, which has no saved values (never executed successfully / forgotten): '
                                                             'get_values() answers {} for the whole dict where get_value() raises for a key' % (g, names[j]),
@@ -682,7 +820,10 @@ class Shadow:
                             ok = ('u%d' % k) in vals and vals['u%d' % k] == g
                         if not ok:
                             out.violations.append(dict(what='getargs value %r is not the value saved by the most recent successful execution of %s (%r)' % (g, names[j], vals),
-                                                       shape='getargs-stale', case=case))
+                                                       shape='getargs-stale', case=case,
+                                                       detail=dict(run=obs['run_no'], consumer=l['task'], source=names[j], key=None if k is None else 'u%d' % k,
+                                                                   group_source=bool(tasks[s]['group']), source_history=history_kind(j),
+                                                                   runner=obs['cmd'][4], backend=sess['backend'])))
                 # ---- dependencies / targets
                 fd = set(t['file_dep'])
                 for cdep in t['calc_dep']:
@@ -740,6 +881,26 @@ class Shadow:
                                                        shape='changed-empty-when-uptodate-false', case=case))
                         else:
                             out.violations.append(dict(what='`changed` %s misses modified file dependencies %s' % (sorted(ch), sorted(must - ch)), shape='changed-misses-modified', case=case))
+            # ---- a getargs error must have a cause: some source without record (42) / without the key (43) in the
+            #      values of its most recent successful execution
+            for e, tn, x in obs['events']:
+                if e != 'failure' or fail_code(*x) not in (42, 43):
+                    continue
+                i = w.ids[tn]
+                t = live[i]
+                code = fail_code(*x)
+                causes = []
+                for a, s, k in t['getargs']:
+                    js = [j for j in tasks[s]['task_dep'] if tasks[j]['sub_of'] == s] if tasks[s]['group'] else [s]
+                    for j in js:
+                        vals, has = latest(j)
+                        if (code == 42 and not has) or (code == 43 and has and k is not None and ('u%d' % k) not in vals):
+                            causes.append(j)
+                            out.count('getargs-error:%d:%s' % (code, history_kind(j)))
+                if not causes:
+                    out.violations.append(dict(what='task %s was not executed (%s) although the most recent successful execution of every getargs source saved what it asks for' % (tn, x[1][-120:]),
+                                               shape='getargs-error-without-cause',
+                                               case=dict(session=sess['idx'], task=i, spec=dict(t), tasks=sess['tasks'], cmds=sess['cmds'], backend=sess['backend'])))
             # ---- shadow update, in event order
             for e, tn, _ in obs['events']:
                 if tn is None:
@@ -753,7 +914,8 @@ class Shadow:
                         fd = {w.fileno(p) for p in lg[0]['kw']['dependencies']}
                     elif t['calc_dep']:
                         fd = None
-                    self.last[i] = dict(values={('u%d' % k): x for k, x in t['values'] if k < 2},
+                    self.hist.setdefault(i, []).append(saved_now(i))
+                    self.last[i] = dict(values=saved_now(i),
                                         calc_file=dict(t['values']).get(2) if t['kind'] == 'calc' else None,
                                         calc_task=dict(t['values']).get(3) if t['kind'] == 'calc' else None,
                                         view={f: obs['fsview'][f] for f in (fd if fd is not None else t['file_dep']) if f in obs['fsview']},
@@ -762,9 +924,11 @@ class Shadow:
                         self.last[i]['view'] = {f: obs['fsview'][f] for f in obs['fsview']}   # unknown set: do not demand
                 elif e == 'failure':
                     self.last.pop(i, None)
+                    self.hist.pop(i, None)
 
     def forget(self, i):
         self.last.pop(i, None)
+        self.hist.pop(i, None)
 
 
 def judge_session(sess, w, runs, out):
@@ -811,11 +975,14 @@ def static_cases(sess, w, runs):
 def run(ctx):
     out = Outcome()
     out.rule = ('a run of a session counts once per (session, run) when some task with getargs was executed with values, '
-                'or some executed task received a non-empty `changed`, or a calc_dep result extended `dependencies`')
-    nsess = ctx.n(120, 600)
+                'or some executed task received a non-empty `changed`, or a calc_dep result extended `dependencies`; '
+                'input_distribution source-history:* / getargs-error:* say how the values a consumer had to see relate to '
+                'the earlier successful executions of the source (NO-VALUES-after-values = re-executed with no values)')
+    nsess, nrev = ctx.n(120, 600), ctx.n(110, 500)
     cases, metas = [], []
-    for idx in range(nsess):
-        sess = gen_session(ctx.rng, idx)
+    for idx in range(nsess + nrev):
+        sess = gen_session(ctx.rng, idx, 'random' if idx < nsess else 'revalue')
+        out.count('sessions:' + sess['mode'])
         try:
             ints, runs, w = run_session(ctx, sess, out)
         except Exception as e:  # noqa -- machinery or implementation failure: observable, not a crash of the check
